@@ -16,7 +16,7 @@ ASSUMPTIONS = [
     "end-of-day storage is read from the water_storage / water_flux rows (public getters)",
     "tolerance 1e-6 mm; on days with reported CR>0 widened by 0.05 mm per metre of profile (documented CR rounding)",
 ]
-BUDGET = {"quick": 250, "thorough": 4000}
+BUDGET = {"quick": 400, "thorough": 4000}
 TOL = 1e-6
 
 PROFILE = gen.profile(storms=(0, 5), p_gw=0.3, p_custom_soil=0.45, low_ksat=True, seasons=(1, 3), p_fm=0.55, p_ffm=0.35,
